@@ -251,6 +251,12 @@ def run(ctx):
     ctx.ob("N-INTERVAL", "parse_atom returns the placeholder before the name is applied", bool(ok), "")
     ctx.ob("N-INTERVAL", "parse_atom applies the scanned name through set_atom_name", len(sets) == 1 and field_path(sets[0]["args"][0]) == ("name_buffer",), "")
 
+    # the sugar equations quantify over all operand terms: a derived copula must still be the copula that is read when the subject's
+    # name touches it (`<S --] P>` written with the property copula must not be read with another copula)
+    import tables
+    T = tables.Tables(ctx)
+    tables.rule_T_JUXTAPOSE(ctx, T, models=("enum", "lex"),
+                            only_written={"copula_instance", "copula_property", "copula_instance_property", "copula_equivalence_retrospective"})
     ctx.undecided = ["nothing value-dependent: the desugaring and index rules are shape facts; std's usize::from_str is trusted for the decimal syntax"]
     ctx.assumptions = ["Iterator::position returns the first index satisfying the predicate (std)", "usize::from_str parses decimal"]
     ctx.trusted = ["rustc nightly front end / MIR", "mirfacts driver", "python rule layer"]
